@@ -16,13 +16,13 @@ Open Scope Z_scope.
     "AlphaQuality 0-100", metadata limit 100 MB. *)
 Definition doc_meta_max : Z := 100 * 1024 * 1024.
 
-Definition doc_validate_atoms : list F.vatom :=
+Definition doc_validate_atoms : list F.vatom :=   (* a set, in the translator's canonical order: field, kind, constant *)
   [ F.VLt F.fld_Quality 0; F.VGt F.fld_Quality 100; F.VNaN F.fld_Quality; F.VInf F.fld_Quality;
     F.VLt F.fld_Method 0; F.VGt F.fld_Method 6;
+    F.VLt F.fld_Preset 0; F.VGt F.fld_Preset 5;
     F.VLt F.fld_TargetSize 0;
     F.VLt F.fld_TargetPSNR 0; F.VNaN F.fld_TargetPSNR; F.VInf F.fld_TargetPSNR;
     F.VLt F.fld_Preprocessing 0; F.VGt F.fld_Preprocessing 3;
-    F.VLt F.fld_Preset 0; F.VGt F.fld_Preset 5;
     F.VGt F.fld_SNSStrength 100;
     F.VGt F.fld_FilterStrength 100;
     F.VLt F.fld_FilterSharpness 0; F.VGt F.fld_FilterSharpness 7;
@@ -30,7 +30,7 @@ Definition doc_validate_atoms : list F.vatom :=
     F.VLt F.fld_Partitions 0; F.VGt F.fld_Partitions 3;
     F.VGt F.fld_Segments 4;
     F.VGt F.fld_Pass 10;
-    F.VLt F.fld_QMin 0; F.VResGt F.fld_QMax 0 100 100; F.VGtRes F.fld_QMin F.fld_QMax 0 100;
+    F.VLt F.fld_QMin 0; F.VGtRes F.fld_QMin F.fld_QMax 0 100; F.VResGt F.fld_QMax 0 100 100;
     F.VGt F.fld_AlphaCompression 1;
     F.VGt F.fld_AlphaFiltering 2;
     F.VGt F.fld_AlphaQuality 100;
@@ -84,12 +84,10 @@ Definition doc_lossy_default_ints : list (Z * Z) :=
 
 (** Propagation: negative = sentinel for SNS/filter strength/filter type, zero-or-negative =
     sentinel for Segments/Pass ("1-4", "1-10": 0 is not a value), QMax negative = 100. *)
-Definition doc_prop_table : list (Z * Z * F.pkind) :=
-  [ (F.lfld_Method, F.fld_Method, F.PAlways);
-    (F.lfld_TargetSize, F.fld_TargetSize, F.PIfGt 0);
+Definition doc_prop_table : list (Z * Z * F.pkind) :=   (* one independent statement per cfg field; canonical order *)
+  [ (F.lfld_TargetSize, F.fld_TargetSize, F.PIfGt 0);
     (F.lfld_TargetPSNR, F.fld_TargetPSNR, F.PIfGt 0);
-    (F.lfld_QMin, F.fld_QMin, F.PAlways);
-    (F.lfld_QMax, F.fld_QMax, F.PRes 0 doc_QMax);
+    (F.lfld_Method, F.fld_Method, F.PAlways);
     (F.lfld_SNSStrength, F.fld_SNSStrength, F.PIfGe 0);
     (F.lfld_FilterStrength, F.fld_FilterStrength, F.PIfGe 0);
     (F.lfld_FilterSharpness, F.fld_FilterSharpness, F.PAlways);
@@ -97,7 +95,9 @@ Definition doc_prop_table : list (Z * Z * F.pkind) :=
     (F.lfld_Partitions, F.fld_Partitions, F.PAlways);
     (F.lfld_Segments, F.fld_Segments, F.PIfGt 0);
     (F.lfld_Pass, F.fld_Pass, F.PIfGt 0);
-    (F.lfld_Preprocessing, F.fld_Preprocessing, F.PAlways) ].
+    (F.lfld_Preprocessing, F.fld_Preprocessing, F.PAlways);
+    (F.lfld_QMin, F.fld_QMin, F.PAlways);
+    (F.lfld_QMax, F.fld_QMax, F.PRes 0 doc_QMax) ].
 
 (** Everything the translator extracted equals what is documented. *)
 Definition source_matches_documentation : Prop :=
@@ -122,24 +122,25 @@ Definition source_matches_documentation : Prop :=
 Definition rq (v : Z) : Z := if v <? 0 then 100 else v.   (* resolveQMax *)
 
 Definition validate_doc (o : opts) : bool :=
-  fl_lt (oQuality o) 0 || (fl_gt (oQuality o) 100 || (fl_isnan (oQuality o) || (fl_isinf (oQuality o) ||
-  ((oMethod o <? 0) || ((oMethod o >? 6) ||
-  ((oTargetSize o <? 0) ||
-  (fl_lt (oTargetPSNR o) 0 || (fl_isnan (oTargetPSNR o) || (fl_isinf (oTargetPSNR o) ||
-  ((oPreprocessing o <? 0) || ((oPreprocessing o >? 3) ||
-  ((oPreset o <? 0) || ((oPreset o >? 5) ||
-  ((oSNSStrength o >? 100) ||
-  ((oFilterStrength o >? 100) ||
-  ((oFilterSharpness o <? 0) || ((oFilterSharpness o >? 7) ||
-  ((oFilterType o >? 1) ||
-  ((oPartitions o <? 0) || ((oPartitions o >? 3) ||
-  ((oSegments o >? 4) ||
-  ((oPass o >? 10) ||
-  ((oQMin o <? 0) || ((rq (oQMax o) >? 100) || ((oQMin o >? rq (oQMax o)) ||
-  ((oAlphaCompression o >? 1) ||
-  ((oAlphaFiltering o >? 2) ||
-  ((oAlphaQuality o >? 100) ||
-  ((oICC o >? doc_meta_max) || ((oEXIF o >? doc_meta_max) || ((oXMP o >? doc_meta_max) || false))))))))))))))))))))))))))))))).
+  existsb (fun b : bool => b)
+  [ fl_lt (oQuality o) 0; fl_gt (oQuality o) 100; fl_isnan (oQuality o); fl_isinf (oQuality o);
+    oMethod o <? 0; oMethod o >? 6;
+    oPreset o <? 0; oPreset o >? 5;
+    oTargetSize o <? 0;
+    fl_lt (oTargetPSNR o) 0; fl_isnan (oTargetPSNR o); fl_isinf (oTargetPSNR o);
+    oPreprocessing o <? 0; oPreprocessing o >? 3;
+    oSNSStrength o >? 100;
+    oFilterStrength o >? 100;
+    oFilterSharpness o <? 0; oFilterSharpness o >? 7;
+    oFilterType o >? 1;
+    oPartitions o <? 0; oPartitions o >? 3;
+    oSegments o >? 4;
+    oPass o >? 10;
+    oQMin o <? 0; oQMin o >? rq (oQMax o); rq (oQMax o) >? 100;
+    oAlphaCompression o >? 1;
+    oAlphaFiltering o >? 2;
+    oAlphaQuality o >? 100;
+    oICC o >? doc_meta_max; oEXIF o >? doc_meta_max; oXMP o >? doc_meta_max ].
 
 Definition doc_default_options : opts :=
   mkOpts false (FFin (75 * fscale)) 4 0 false false 0 (FFin 0) 0 (-1) (-1) 0 (-1) 0 (-1) (-1) false 0 (-1) (-1) (-1) (-1) 0 0 0.
